@@ -4,8 +4,16 @@
 package c08
 
 import (
+	"context"
 	"fmt"
+	"reflect"
+	"runtime"
+	"strings"
+	"sync"
 	"testing"
+	"time"
+
+	ebu "github.com/jilio/ebu"
 
 	"verif/harness/internal/prog"
 	"verif/harness/internal/vk"
@@ -111,4 +119,96 @@ func bitsSet(x int) int {
 		n++
 	}
 	return n
+}
+
+// TestC08Concurrent: concurrent publishers on a bus with all four hooks: every publish still gets
+// each hook exactly once, before hooks before its handlers, after hooks after its synchronous ones.
+func TestC08Concurrent(t *testing.T) {
+	run := vk.New("C08", "concurrent-hooks")
+	defer run.Finish()
+	type ev struct{ ID int }
+	n := run.Scale(200, 6000)
+	procs := []int{2, 4, 16, 1}
+	defer runtime.GOMAXPROCS(runtime.GOMAXPROCS(0))
+	for i := 0; i < n; i++ {
+		rng := run.Rand(uint64(i))
+		runtime.GOMAXPROCS(procs[i%len(procs)])
+		var mu sync.Mutex
+		var log []string // "kind:id" in stamp order
+		rec := func(kind string, id int) {
+			mu.Lock()
+			log = append(log, fmt.Sprintf("%s:%d", kind, id))
+			mu.Unlock()
+		}
+		noise := func(x int) {
+			switch (x*7 + i) % 5 {
+			case 0:
+				runtime.Gosched()
+			case 1:
+				time.Sleep(time.Duration(1+(x*13+i)%40) * time.Microsecond)
+			}
+		}
+		bus := ebu.New(
+			ebu.WithBeforePublish(func(_ reflect.Type, e any) { rec("before", e.(ev).ID); noise(e.(ev).ID) }),
+			ebu.WithBeforePublishContext(func(_ context.Context, _ reflect.Type, e any) { rec("beforectx", e.(ev).ID); noise(e.(ev).ID + 1) }),
+			ebu.WithAfterPublish(func(_ reflect.Type, e any) { rec("after", e.(ev).ID); noise(e.(ev).ID + 2) }),
+			ebu.WithAfterPublishContext(func(_ context.Context, _ reflect.Type, e any) { rec("afterctx", e.(ev).ID) }),
+		)
+		ebu.Subscribe(bus, func(e ev) { rec("h.enter", e.ID); noise(e.ID + 3); rec("h.exit", e.ID) })
+		ebu.Subscribe(bus, func(e ev) { rec("a.enter", e.ID) }, ebu.Async())
+		G := 2 + rng.IntN(6)
+		E := 1 + rng.IntN(6)
+		var wg sync.WaitGroup
+		start := make(chan struct{})
+		for g := 0; g < G; g++ {
+			wg.Add(1)
+			go func(g int) {
+				defer wg.Done()
+				<-start
+				for k := 0; k < E; k++ {
+					if k%2 == 0 {
+						ebu.Publish(bus, ev{ID: g*100 + k})
+					} else {
+						ebu.PublishContext(bus, context.Background(), ev{ID: g*100 + k})
+					}
+				}
+			}(g)
+		}
+		close(start)
+		wg.Wait()
+		bus.Wait()
+		pos := map[string][]int{}
+		for p, s := range log {
+			pos[s] = append(pos[s], p)
+		}
+		overlap := false
+		for g := 0; g < G; g++ {
+			for k := 0; k < E; k++ {
+				id := g*100 + k
+				for _, kind := range []string{"before", "beforectx", "after", "afterctx", "h.enter", "h.exit", "a.enter"} {
+					if c := len(pos[fmt.Sprintf("%s:%d", kind, id)]); c != 1 {
+						run.Violation("hooks:concurrent-count:"+kind, fmt.Sprintf("with %d concurrent publishers, publish %d saw %s %d times (want exactly 1)", G, id, kind, c), map[string]any{"publishers": G, "events_each": E, "log": log})
+						goto next
+					}
+				}
+				p := func(kind string) int { return pos[fmt.Sprintf("%s:%d", kind, id)][0] }
+				if !(p("before") < p("h.enter") && p("beforectx") < p("h.enter") && p("before") < p("a.enter") && p("after") > p("h.exit") && p("afterctx") > p("h.exit")) {
+					run.Violation("hooks:concurrent-order", fmt.Sprintf("publish %d: hooks out of place relative to its handlers", id), map[string]any{"log": log})
+					goto next
+				}
+				// another publish's hook between this publish's before hook and after hook
+				for q := p("before") + 1; q < p("afterctx"); q++ {
+					if strings.HasPrefix(log[q], "before:") {
+						overlap = true
+					}
+				}
+			}
+		}
+	next:
+		run.Case(fmt.Sprintf("G%d E%d ov%v p%d", G, E, overlap, procs[i%len(procs)]), overlap)
+		run.Count("hook_calls_checked", int64(len(log)))
+		if i == 0 {
+			run.Sample(map[string]any{"publishers": G, "events_each": E, "trace_head": log[:min(len(log), 20)]})
+		}
+	}
 }
